@@ -559,11 +559,22 @@ class Open(State):
 class WaitReturns(State):
     def run(self) -> None:
         self.set_wait_returns_state(set_name=True)
+
+        #: The election is not implemented, but the connection this state
+        #: sits on ends like any other: the peer goes away, or the
+        #: application does not want it any more.
+        if self.is_set_release_signal_from_peer() or \
+                self.association.stop_requested:
+            self.set_closed_state()
     
 
 class WaitConnAckElect(State):
     def run(self) -> None:
         self.set_wait_conn_ack_elect_state(set_name=True)
+
+        if self.is_set_release_signal_from_peer() or \
+                self.association.stop_requested:
+            self.set_closed_state()
 
 
 class Closing(State):
